@@ -274,18 +274,32 @@ class Model(object):
         return out
 
     def mro(self, cq):
+        """C3 linearisation over the classes of the repository (bases outside it are left out)."""
         cache = self.__dict__.setdefault('_mro_cache', {})
         if cq in cache:
             return cache[cq]
-        out = cache[cq] = []
-
-        def walk(q):
-            if q in out or q not in self.classes:
-                return
-            out.append(q)
-            for b in self.classes[q].bases:
-                walk(b)
-        walk(cq)
+        if cq not in self.classes:
+            cache[cq] = []
+            return cache[cq]
+        cache[cq] = [cq]       # guard against cycles while computing
+        bases = [b for b in self.classes[cq].bases if b in self.classes]
+        seqs = [list(self.mro(b)) for b in bases] + [list(bases)]
+        out = [cq]
+        while True:
+            seqs = [s_ for s_ in seqs if s_]
+            if not seqs:
+                break
+            for s_ in seqs:
+                head = s_[0]
+                if not any(head in t[1:] for t in seqs):
+                    break
+            else:
+                head = seqs[0][0]      # inconsistent hierarchy: fall back to depth first
+            out.append(head)
+            for s_ in seqs:
+                if s_ and s_[0] == head:
+                    del s_[0]
+        cache[cq] = out
         return out
 
     def subclasses(self, cq):
@@ -309,6 +323,22 @@ class Model(object):
         except LostAnchor as e:
             raise LostAnchor('%s -- %s' % (e, message[:160]))
         raise AnalysisError(message)
+
+    def require_attrs(self, cq, *attrs):
+        """A white-box rule builds objects of class cq by hand, with its state in the named instance attributes: the class (or a base / subclass of it in
+        the package) must still assign those attributes on self."""
+        if cq not in self.classes:
+            raise LostAnchor('anchor class %s not found' % cq)
+        have = set()
+        family = set(self.mro(cq)) | set(self.subclasses(cq))
+        for q, fi in self.funcs.items():
+            if fi.cls in family:
+                for n in ast.walk(fi.node):
+                    if isinstance(n, ast.Attribute) and isinstance(n.value, ast.Name) and n.value.id == 'self':
+                        have.add(n.attr)
+        missing = [a for a in attrs if a not in have]
+        if missing:
+            raise LostAnchor('class %s no longer keeps its state in the attribute(s) %s' % (cq.rsplit('.', 1)[1], ', '.join(missing)))
 
     def require_method(self, cq, name):
         fi = self.method(cq, name) if cq in self.classes else None
